@@ -110,14 +110,17 @@ class IgnoreDirectiveParser:
 
 
 def _load_repo_ignores(project_root: Path) -> list[str]:
-    """Load global ignore patterns from .thailintignore or .thailint.yaml."""
+    """Load global ignore patterns from .thailintignore and the config's ignore list."""
+    patterns: list[str] = []
     thailintignore = project_root / ".thailintignore"
     if thailintignore.exists():
-        return _parse_thailintignore_file(thailintignore)
-    config_file = project_root / ".thailint.yaml"
-    if config_file.exists():
-        return _parse_config_file(config_file)
-    return []
+        patterns.extend(_parse_thailintignore_file(thailintignore))
+    for name in (".thailint.yaml", ".thailint.json"):
+        config_file = project_root / name
+        if config_file.exists():
+            patterns.extend(_parse_config_file(config_file))
+            break
+    return patterns
 
 
 def _parse_thailintignore_file(ignore_file: Path) -> list[str]:
